@@ -150,8 +150,9 @@ class Ctx:
                 d = self.cond_def[i]
                 # a branch condition over a derived variable (sqrt!k) is only pulled in when that variable
                 # is already relevant: otherwise every query about the inputs would drag in its non-linear
-                # definition (dropping a condition over-approximates, which is sound for `unsat`)
-                if (d in rel) if d is not None else ((vs & rel) and (vs & self.defined_ids) <= rel):
+                # definition (dropping a condition over-approximates, which is sound for `unsat`); a condition that
+                # shares a DERIVED variable with the query (e.g. the print/parse contract of a token) always comes along
+                if (d in rel) if d is not None else ((vs & rel) and ((vs & self.defined_ids) <= rel or ((vs & rel) - self.input_ids))):
                     picked[i] = True
                     if not vs <= rel:
                         rel |= vs
